@@ -394,7 +394,7 @@ def check_combination(ctx, case_seed):
 
 def run(ctx):
     rnd = ctx.rng('wrap')
-    n = {'quick': 700, 'thorough': 20000}[ctx.tier] // ctx.nshards
+    n = {'quick': 700, 'thorough': 100000}[ctx.tier] // ctx.nshards
     for i in range(n):
         if ctx.out_of_time('decorated stacks'):
             break
